@@ -230,7 +230,10 @@ def wrapEncContract (hL : LibEncContract L b Dec) : EncContract (wrapCodec L b t
   finish := by
     intro s x y fin inp room fl hR hP
     obtain ⟨r, hr, hq⟩ := wrapProcess_enc_spec hL inp room fl hR hP
-    simp only [wrapCodec, hr]; exact hq.2.2.2.2.1
+    simp only [wrapCodec, hr]
+    intro he
+    obtain ⟨a, b', c, d⟩ := hq.2.2.2.2.1 he
+    exact ⟨by rw [a]; simp, b', c, d⟩
   progress := by
     intro s x y fin inp room fl hR hP
     obtain ⟨r, hr, hq⟩ := wrapProcess_enc_spec hL inp room fl hR hP
@@ -284,7 +287,7 @@ def encLibContract (P : Params) (b : Backend) : LibEncContract (encLib P b) b de
     change (encStep P s.eng inp room fl).res = Res.streamEnd at he
     rw [if_pos he]
   finish := by
-    intro s x y fin inp room fl hR hP _ he
+    intro s x y fin inp room fl hR hP hroom he
     obtain ⟨h1, h2, h3, h4⟩ := encLib_call P b s inp room fl
     have hend : (encStep P s.eng inp room fl).res = Res.streamEnd := by
       rw [h4] at he
@@ -293,7 +296,16 @@ def encLibContract (P : Params) (b : Backend) : LibEncContract (encLib P b) b de
       · split at he
         · unfold stuckRet at he; split at he <;> cases he
         · cases he
-    obtain ⟨f1, f2, f3, f4⟩ := (encContract P).finish inp room fl hR hP hend
+    obtain ⟨_, f2, f3, f4⟩ := (encContract P).finish inp room fl hR hP hend
+    have f1 : fl = Flush.full := by
+      rw [encStep_eq P s.eng inp room fl hroom] at hend
+      split at hend
+      · rename_i hc
+        simp only [Bool.and_eq_true, encFin, Bool.or_eq_true, decide_eq_true_eq] at hc
+        rcases hc.1 with h | h
+        · exact (hP (hR.2 h)).1
+        · exact h.1
+      · cases hend
     rw [h2, h3]
     refine ⟨f1, f2, ?_, f4⟩
     exact (encContract P).init
